@@ -557,7 +557,8 @@ func checkCutGeometry(c *Ctx, cut *ssa.Function) {
 		got := fmt.Sprintf("Fragment{Sequence:%s, ForwardOverhang:%s, ReverseOverhang:%s}", short(s.String()), short(fo.String()), short(ro.String()))
 		lv := vocabOf(ovl, lenf, f, "binop[-](a,b)", "binop[+](a,b)", "const[0]", "const[1]")
 		if stFin != holds {
-			if len(opaqueParts(s, lv))+len(opaqueParts(fo, lv))+len(opaqueParts(ro, lv)) == 0 && fo.Args[0].String() == f && ro.Args[0].String() == f {
+			abstract := func(t *Term) *Term { return parseTerm(strings.ReplaceAll(t.String(), f, "param[9]")) }
+			if len(opaqueParts(abstract(s), lv))+len(opaqueParts(abstract(fo), lv))+len(opaqueParts(abstract(ro), lv)) == 0 && fo.Args[0].String() == f && ro.Args[0].String() == f {
 				stFin, whyFin = broken, got+"; want {f[ovl:len(f)-ovl], f[:ovl], f[len(f)-ovl:]}"
 			} else {
 				whyFin = got
